@@ -297,7 +297,7 @@ int main(int argc, char **argv) {
     uint32_t    pt_seed = 0;
     int         pt_pm = 0, pt_us = 0, pt_target = 0;
     unsigned long role_lo = 0, role_hi = 0;
-    int           role_pm = 0, role_us = 0;
+    int           role_pm = 0, role_us = 0, role_where = 0;
     const char *sets[256];
     int         nsets = 0;
     g_w = 64, g_h = 64, g_bits = 8, g_kind = GV_MOTION, g_cseed = 1, g_pad_mode = 0;
@@ -323,7 +323,7 @@ int main(int argc, char **argv) {
         else if (!strcmp(a, "--pad")) { const char *v = NEXT; g_pad_mode = !strcmp(v, "rand") ? -1 : (int)strtol(v, 0, 0); }
         else if (!strcmp(a, "--scribble")) scribble = atoi(NEXT);
         else if (!strcmp(a, "--prefill")) prefill = NEXT;
-        else if (!strcmp(a, "--slow-kernel")) { sscanf(NEXT, "%lx:%lx:%d:%d", &role_lo, &role_hi, &role_pm, &role_us); } /* code range of one kernel's thread function : permille : microseconds */
+        else if (!strcmp(a, "--slow-kernel")) { sscanf(NEXT, "%lx:%lx:%d:%d:%d", &role_lo, &role_hi, &role_pm, &role_us, &role_where); } /* code range of one kernel's thread function : permille : microseconds */
         else if (!strcmp(a, "--perturb")) { sscanf(NEXT, "%u:%d:%d:%d", &pt_seed, &pt_pm, &pt_us, &pt_target); }
         else if (!strcmp(a, "--pts")) ptsmode = NEXT;
         else if (!strcmp(a, "--stop-after")) stop_after = atoi(NEXT);
@@ -351,7 +351,7 @@ int main(int argc, char **argv) {
     alarm((unsigned)timeout_s);
     vrt_tid(); /* the application thread is thread 0 */
     if (pt_pm) { vrt_perturb_target(pt_target); vrt_perturb(pt_seed, pt_pm, pt_us); }
-    if (role_hi) vrt_perturb_role((uintptr_t)role_lo, (uintptr_t)role_hi, role_pm, role_us);
+    if (role_hi) vrt_perturb_role_where(role_where), vrt_perturb_role((uintptr_t)role_lo, (uintptr_t)role_hi, role_pm, role_us);
 
     /* configuration memory with the requested prior contents */
     EbSvtAv1EncConfiguration *cfg = (EbSvtAv1EncConfiguration *)malloc(sizeof *cfg);
